@@ -152,6 +152,9 @@ def classify(h, s1, s2, kind):
     if kind == "pre-drawn":
         where = "two-pool-chunk-copies" if (a["ctx"] != "parent" or b["ctx"] != "parent") else "single-process"
         return f"pre-drawn-row-consumed-twice:{where}"
+    if kind == "pre-drawn-vs-stream":
+        where = "pool" if (a["ctx"] != "parent" or b["ctx"] != "parent") else "single-process"
+        return f"variate-of-a-pre-drawn-row-drawn-again-from-the-stream:{where}"
     same_ctx = a["ctx"] == b["ctx"]
     if same_ctx and a["ctx"] == "parent":
         return "generator-reseeded-to-a-used-state:single-process"
@@ -167,11 +170,15 @@ def check_sharing(sh, case, h, tag):
     owner = {}
     seen = set()
     for sid in sorted(h.samples):
-        for (t, kind) in h.samples[sid]["tags"]:
-            o = owner.get((t, kind))
+        rows_here = h.samples[sid].get("row_tags", set())
+        for t in h.samples[sid]["tags"]:
+            o = owner.get(t)
             if o is None:
-                owner[(t, kind)] = sid
+                owner[t] = sid
             elif o != sid:
+                both_rows = t in rows_here and t in h.samples[o].get("row_tags", set())
+                one_row = (t in rows_here) != (t in h.samples[o].get("row_tags", set()))
+                kind = "pre-drawn" if both_rows else ("pre-drawn-vs-stream" if one_row else "stream")
                 cls = classify(h, o, sid, kind)
                 if cls not in seen:
                     seen.add(cls)
